@@ -113,6 +113,125 @@ theorem pop_min {q : Q} (h : Reachable q) :
   refine ⟨a, h1, h2, h4, fun hin => ((h5 a).mp hin).2 rfl, fun b hb => ?_⟩
   rw [h5 b]; exact ⟨fun h => h.1, fun h => ⟨h, hb⟩⟩
 
+theorem hpop_length (q : Q) (hw : WF q) (hpos : 0 < q.pq.length) : (hpop q).1.pq.length + 1 = q.pq.length := by
+  have hc1 := cons_swap hw.1 0 (q.pq.length - 1) hpos (by omega)
+  have hd := down_spec (swap q 0 (q.pq.length - 1)) 0 (q.pq.length - 1) hc1 (by rw [swap_length]; omega) (by rw [swap_length]; omega)
+  show (pqPop (down (swap q 0 (q.pq.length - 1)) 0 (q.pq.length - 1)).1).1.pq.length + 1 = _
+  rw [pqPop_pq, hd.2.2.1]
+  simp only [List.length_take, downL_length, swap_length]
+  omega
+
+theorem mem_items_itemD {q : Q} (hc : Cons q) {x : Item} (hx : x ∈ q.items) : itemD q x.id = x ∧ tracked q x.id = true := by
+  have hf := find_of_mem_nodup hc.keys hx
+  exact ⟨by simp [itemD, hf], by simp [tracked, hf]⟩
+
+theorem itemD_mem_items {q : Q} {a : Nat} (ht : tracked q a = true) : itemD q a ∈ q.items := by
+  simp only [tracked] at ht
+  cases hf : find q.items a with
+  | none => rw [hf] at ht; cases ht
+  | some x => simp only [itemD, hf]; exact find_some_mem hf
+
+theorem contains_iff_inPq (l : List Nat) (a : Nat) : l.contains a = true ↔ InPq l a := by
+  simp only [List.contains_iff_mem]
+  constructor
+  · intro h
+    obtain ⟨k, hk, e⟩ := List.getElem_of_mem h
+    exact ⟨k, hk, by simp [at_, List.getElem?_eq_getElem hk, e]⟩
+  · rintro ⟨k, hk, e⟩
+    rw [← e]; simp only [at_, List.getD_eq_getElem?_getD, List.getElem?_eq_getElem hk]; exact List.getElem_mem hk
+
+/-- **the executable Pop clause of the driver holds of the model** (partial: for a popped item whose options are for
+    itself — the other case is the known finding C30-pop-zero-opts): `popOk`, the predicate the check evaluates on the
+    implementation's states around every `Pop`, is true of every reachable model state -/
+theorem popOk_partial {q : Q} (h : Reachable q)
+    (hown : ∀ o d, (pop q).2 = some (o, d) → ∀ a, InPq q.pq a → (itemD q a).opts = o → o.rid = a) :
+    popOk q (pop q).1 (pop q).2 = true := by
+  have hw := reachable_wf h
+  cases he : q.pq.isEmpty
+  case true =>
+    rw [pop_empty q he]; simp [popOk, he]
+  case false =>
+    have hpos := length_pos_of_not_isEmpty (l := q.pq) (by rw [he]; exact Bool.false_ne_true)
+    have hp := hpop_wf q hw hpos
+    have hlen := hpop_length q hw hpos
+    have hres := pop_nonempty q he
+    let g : Item → Item := fun x => { x with date := tEpoch }
+    have gid : ∀ x, (g x).id = x.id := fun _ => rfl
+    generalize ha : (hpop q).2 = a at hp hres
+    have hin : InPq q.pq a := by rw [hp.2.2.1]; exact ⟨0, hpos, rfl⟩
+    have hta := (idx_of_inPq hw.1 a hin)
+    have htp : tracked (hpop q).1 a = true := by rw [hp.2.1.tr]; exact hta.1
+    have hopts : (itemD (hpop q).1 a).opts = (itemD q a).opts := hp.2.1.opts a
+    have hrid := hown _ _ (by rw [hres]) a hin hopts.symm
+    rw [hres]
+    simp only [popOk, List.any_eq_true]
+    refine ⟨itemD q a, itemD_mem_items hta.1, ?_⟩
+    have hid : (itemD q a).id = a := itemD_id q a
+    have hpost : ∀ b, itemD (modify (hpop q).1 a g) b = if b = a then g (itemD (hpop q).1 a) else itemD (hpop q).1 b := by
+      intro b
+      by_cases hb : b = a
+      · subst hb; rw [if_pos rfl, itemD_modify_same _ _ g gid htp]
+      · rw [if_neg hb, itemD_modify_other _ _ _ g gid hb]
+    have hnotin : ¬ InPq (hpop q).1.pq a := fun hh => ((hp.2.2.2.1 a).mp hh).2 rfl
+    simp only [Bool.and_eq_true, beq_iff_eq, Bool.not_eq_true', decide_eq_true_eq, List.all_eq_true, Bool.or_eq_true]
+    refine ⟨⟨⟨⟨⟨⟨⟨⟨⟨?_, hopts.symm⟩, by rw [hopts] at hrid ⊢; rw [hid]; exact hrid⟩, ?_⟩, ?_⟩, ?_⟩, ?_⟩, ?_⟩, ?_⟩, ?_⟩
+    · simp only [onHeap, decide_eq_true_eq]; exact hta.2
+    · -- bystanders unchanged up to the heap position
+      simp only [sameExcept, Bool.and_eq_true, beq_iff_eq, List.all_eq_true, Bool.or_eq_true]
+      refine ⟨?_, ?_⟩
+      · have hl : (modify (hpop q).1 a g).items.length = q.items.length := by
+          have := congrArg List.length hp.2.1.keys
+          simpa [modify, upd] using this
+        rw [hl, hid]
+        simp [hta.1]
+      · intro x hx
+        by_cases hxa : x.id = a
+        · left; rw [hid]; simp [hxa]
+        · right
+          have hxi := mem_items_itemD hw.1 hx
+          refine ⟨by rw [tracked_modify _ _ _ g gid, hp.2.1.tr]; exact hxi.2, ?_⟩
+          rw [hpost, if_neg hxa]
+          have := hp.2.1.it x.id
+          rw [hxi.1] at this
+          simp only [eqModIdx, beq_iff_eq]; exact this
+    · have e0 : itemD (modify (hpop q).1 a g) (itemD q a).id = g (itemD (hpop q).1 a) := by rw [hid, hpost, if_pos rfl]
+      rw [e0]
+      have := hp.2.1.it a
+      simp only [eqModIdx, beq_iff_eq]
+      have e1 : setIdx 0 (g (itemD (hpop q).1 a)) = g (setIdx 0 (itemD (hpop q).1 a)) := rfl
+      rw [e1, this]; rfl
+    · intro y hy
+      by_cases hon : onHeap y = true
+      · right
+        have hyi := mem_items_itemD hw.1 hy
+        have hiny : InPq q.pq y.id := by
+          by_cases hh : InPq q.pq y.id
+          · exact hh
+          · have := hw.1.off y.id hyi.2 hh
+            rw [hyi.1] at this
+            simp only [onHeap, decide_eq_true_eq] at hon; omega
+        obtain ⟨k, hk, e⟩ := hiny
+        have := hp.2.2.2.2.1 k hk
+        rw [e] at this
+        simp only [lessId, hyi.1, lessPrio_eq_rank] at this
+        exact this
+      · left; simpa using hon
+    · rw [hid]
+      cases hc : (modify (hpop q).1 a g).pq.contains a
+      · rfl
+      · exact absurd ((contains_iff_inPq _ _).mp hc) hnotin
+    · rw [hid, hpost, if_pos rfl]
+      simp only [onHeap, decide_eq_false_iff_not]
+      show ¬ 0 ≤ (itemD (hpop q).1 a).heapIdx
+      rw [hp.2.2.2.2.2]; omega
+    · exact hlen
+    · intro id hidm
+      rw [hid]
+      by_cases hia : id = a
+      · left; exact hia
+      · right
+        exact (contains_iff_inPq _ _).mpr ((hp.2.2.2.1 id).mpr ⟨(contains_iff_inPq _ _).mp (List.contains_iff_mem.mpr hidm), hia⟩)
+
 /-- **priority classes and FIFO**: what "no queued repository is strictly preferred" means in the statement's words —
     if the popped repository's latest options are already indexed then so are those of every queued one; among
     equally indexed ones a failed one is popped only if all are failed; and within the same class it has the
